@@ -5,8 +5,8 @@ import itertools
 from gen import c16_members
 
 ID = "C16"
-PROPS_FILES = ["Gama/Props/C16.lean", "Gama/Props/C16Ls.lean"]
-LEAN_TARGETS = ["Gama.Props.C16", "Gama.Props.C16Ls"]
+PROPS_FILES = ["Gama/Props/C16.lean", "Gama/Props/C16Ls.lean", "Gama/Props/C16CholSource.lean"]
+LEAN_TARGETS = ["Gama.Props.C16", "Gama.Props.C16Ls", "Gama.Props.C16CholSource"]
 DRIVERS = ["drv_sparse"]
 RULE = ("a case = one sparsity pattern with values (rows x cols, list of (col,value) per row, build style: plain / roomy / "
         "network (cols unknown, replicate(n,r,c) of the finished matrix) / grow (fill k rows, replicate(n,r,c) into a larger "
@@ -63,6 +63,15 @@ def translate(ctx):
         raise TieBroken("tools/gen/c16_members.py", str(e))
     except OSError as e:
         raise TieBroken("tools/gen/c16_members.py", "cannot read source: " + str(e))
+    # round 7: the whole loop nest of Envelope::cholDec (Gen/CholDecLoop.lean), tools/gen/c16_choldec.py
+    from gen import c16_choldec
+    try:
+        if c16_choldec.run(ctx.repo, ctx.lean):
+            ctx.log("Gen/CholDecLoop.lean regenerated (content changed)")
+    except c16_choldec.Unparsable as e:
+        raise TieBroken("tools/gen/c16_choldec.py", str(e))
+    except OSError as e:
+        raise TieBroken("tools/gen/c16_choldec.py", "cannot read source: " + str(e))
     src = (ctx.repo / "lib/gnu_gama/adj/envelope.h").read_text()
     m = re.search(r"void\s+Envelope<Float,\s*Index>::cholDec\(Float tol\)\s*\{(.*?)\n  \}", src, re.S)
     if not m:
